@@ -203,10 +203,14 @@ type answer struct {
 func guard(f func() answer) (a answer) {
 	defer func() {
 		if r := recover(); r != nil {
-			a = answer{X: fmt.Sprintf("PANIC: %v", r)}
+			a = answer{M: []pair{}, X: fmt.Sprintf("PANIC: %v", r)}
 		}
 	}()
-	return f()
+	a = f()
+	if a.M == nil {
+		a.M = []pair{}
+	}
+	return a
 }
 
 var partitionPrefix = regexp.MustCompile(`^partition \d+: `)
@@ -848,7 +852,15 @@ func (w *world) batch(full bool) {
 	sel := func(p int) bool { return full || w.rnd.Intn(100) < p }
 
 	// counts (white box in the trace specification)
-	lc, fc := w.rc.counts(w.long), w.rc.counts(fr)
+	safeCounts := func(r ring.ReadRing) (c []int) {
+		defer func() {
+			if p := recover(); p != nil {
+				c = []int{-1}
+			}
+		}()
+		return w.rc.counts(r)
+	}
+	lc, fc := safeCounts(w.long), safeCounts(fr)
 	must(w.rc.ti.Write(map[string]any{"e": "C", "lc": lc, "fc": fc}))
 	w.rc.res.Cases++
 	if w.shortcut() {
@@ -858,6 +870,9 @@ func (w *world) batch(full bool) {
 		return answer{M: w.rc.members(r), X: fmt.Sprintf("zones=%v", r.(*ring.Ring).Zones())}
 	}, fr)
 	for ki, k := range q.keys {
+		if full && ki >= 4 { // the keys are shuffled: 4 of the boundary keys, every operation
+			break
+		}
 		for oi, op := range opsMenu {
 			if !sel(35) {
 				continue
@@ -1208,7 +1223,9 @@ func (w *world) pshard(id, size, lb int, nowUnix int64, keys []uint32, fpr *ring
 		return res, sub
 	}
 	l, lsub := call(w.pir)
-	f, _ := call(ring.NewPartitionInstanceRing(staticReader{fpr}, fir, hbTimeout))
+	// the PartitionRing cache cannot be switched off: a brand-new PartitionRing for every fresh query
+	_ = fpr
+	f, _ := call(ring.NewPartitionInstanceRing(staticReader{w.freshPartitionRing()}, fir, hbTimeout))
 	hit := lsub != nil && prev != nil && lsub == prev
 	if lsub != nil {
 		if lb == 0 {
